@@ -38,6 +38,12 @@ const prelude = `(set-option :produce-models true)
   (forall ((j Int)) (! (=> (and (<= (soff b) j) (< j (+ (soff b) (slen b)))) (= (memB (sbase b) j) (memB (sbase a) (+ (- j (soff b)) (soff a))))) :pattern ((memB (sbase b) j)) :weight 8)))) :pattern ((bytesEq a b)))))
 (assert (forall ((a Slice) (b Slice)) (! (=> (and (= (slen a) (slen b)) (forall ((j Int)) (=> (and (<= (soff a) j) (< j (+ (soff a) (slen a)))) (= (memB (sbase a) j) (memB (sbase b) (+ (- j (soff a)) (soff b))))))) (bytesEq a b)) :pattern ((bytesEq a b)))))
 (assert (forall ((a Slice)) (! (bytesEq a a) :pattern ((bytesEq a a)))))
+(declare-fun cid (Slice) Int)
+(assert (forall ((a Slice) (b Slice)) (! (=> (bytesEq a b) (= (cid a) (cid b))) :pattern ((bytesEq a b)))))
+(declare-fun catS (Slice Slice) Slice)
+(assert (forall ((a Slice) (b Slice)) (! (and (= (slen (catS a b)) (+ (slen a) (slen b))) (= (soff (catS a b)) 0) (< 1 (sbase (catS a b)))
+  (forall ((j Int)) (! (=> (and (<= 0 j) (< j (slen a))) (= (memB (sbase (catS a b)) j) (memB (sbase a) (+ (soff a) j)))) :pattern ((memB (sbase (catS a b)) j))))
+  (forall ((j Int)) (! (=> (and (<= (slen a) j) (< j (+ (slen a) (slen b)))) (= (memB (sbase (catS a b)) j) (memB (sbase b) (+ (soff b) (- j (slen a)))))) :pattern ((memB (sbase (catS a b)) j))))) :pattern ((catS a b)))))
 (declare-fun dyntype (Int) Int)
 (declare-fun ifaceI (Int) Int)
 (declare-fun ifaceS (Int) Slice)
@@ -212,6 +218,12 @@ func verifyFuncBeh(prog *Program, key string, beh *Behavior) (res *FuncResult) {
 		cp.Loops = map[int]*LoopContract{}
 		for n, lc := range fc.Loops {
 			c2 := *lc
+			c2.Invariants = nil
+			for _, inv := range lc.Invariants {
+				ic := *inv
+				ic.FromBase = true
+				c2.Invariants = append(c2.Invariants, &ic)
+			}
 			cp.Loops[n] = &c2
 		}
 		for n, lc := range beh.Loops {
@@ -225,6 +237,7 @@ func verifyFuncBeh(prog *Program, key string, beh *Behavior) (res *FuncResult) {
 			}
 		}
 		cp.Behaviors = nil
+		cp.Callsites = append(append([]*CallsiteClause{}, fc.Callsites...), beh.Callsites...)
 		fc = &cp
 		res.Name = key + "{" + beh.Name + "}"
 		res.Behavior = beh.Name
@@ -404,9 +417,15 @@ func verifyFuncBeh(prog *Program, key string, beh *Behavior) (res *FuncResult) {
 	res.Facts = ex.facts
 	res.Errors = dedupe(ex.errs)
 	res.Drift = append(res.Drift, ex.drift...)
+	for _, cc := range fc.Callsites {
+		if !ex.callsitesUsed[cc] {
+			res.Drift = append(res.Drift, fmt.Sprintf("%s: callsite %q matches no call expression", key, cc.CallText))
+		}
+	}
 	for _, b := range fc.Binds {
 		if !ex.bindsUsed[b] {
-			res.Drift = append(res.Drift, fmt.Sprintf("%s: bind %q matches no call expression", key, b.CallText))
+			// an unused ghost binding only makes obligations harder to prove; it cannot hide one
+			res.Warnings = append(res.Warnings, fmt.Sprintf("%s: bind %q matches no call expression", key, b.CallText))
 		}
 	}
 	res.Warnings = append(res.Warnings, keysOf(ex.warnings)...)
@@ -706,10 +725,14 @@ func (ex *Exec) useLemma(name string) {
 	}
 	body := ex.specBool(sc, pd.Body)
 	var pats []*T
-	if pd.Trigger != nil {
-		tv, _ := ex.specEval(sc, pd.Trigger.Expr)
+	for _, tc := range pd.Triggers {
+		tv, _ := ex.specEval(sc, tc.Expr)
 		pats = append(pats, tv.T)
 	}
-	ex.rawFact(Forall(bvs, body, pats...))
+	if len(pats) > 1 {
+		ex.rawFact(ForallMulti(bvs, body, pats))
+	} else {
+		ex.rawFact(Forall(bvs, body, pats...))
+	}
 	ex.lemmasUsed[name] = true
 }
